@@ -214,6 +214,75 @@ def run(res, tier, seed, replay):
     judge(res, pr, corr_bad, spec_bad)
 
 
+def include_chains(rng, quick):
+    """main -> f1 -> ... -> fk, ONE INCLUDE per file (more than one per file is the recorded finding C02/stale-include-tracer),
+    a duplicate TYPE in one file of the chain, before or after that file's own INCLUDE; the expected location and include
+    trace are computed here from the layout"""
+    out = []
+    for k in (1, 2, 3, 4):
+        for j in range(1, k + 1):
+            for after in (False, True):
+                for variant in range(3 if quick else 8):
+                    names = ["main.jst"] + [("d%d/" % i if (i + variant) % 2 else "") + "f%d.jst" % i for i in range(1, k + 1)]
+                    files, inc_line = [], {}
+                    for i in range(k + 1):
+                        lines = ["JSIGHT 0.3", "TYPE @dup", "  {}"] if i == 0 else []
+                        pad1 = ["GET /p%d_%d" % (i, x) for x in range(rng.randint(0, 2))]
+                        pad1 = [y for g in pad1 for y in (g, "  200 any")]
+                        fault = ["TYPE @dup", "  {}"] if i == j else []
+                        inc = []
+                        if i < k:
+                            # the INCLUDE name is relative to the including file's directory
+                            here = names[i].rsplit("/", 1)[0] + "/" if "/" in names[i] else ""
+                            target = names[i + 1]
+                            rel = target[len(here):] if here and target.startswith(here) else None
+                            if rel is None and here:
+                                # a sibling directory cannot be named without '..': keep the chain inside this directory
+                                names[i + 1] = here + names[i + 1].split("/")[-1]
+                                rel = names[i + 1][len(here):]
+                            inc = ["INCLUDE " + (rel if rel is not None else target)]
+                        body = lines + pad1 + ((inc + fault) if after else (fault + inc))
+                        if i == j:
+                            fl = body.index("TYPE @dup", 1 if i == 0 else 0) + 1
+                        if inc:
+                            inc_line[i] = body.index(inc[0]) + 1
+                        files.append((names[i], ("\n".join(body) + "\n").encode()))
+                    if not after and j < k:
+                        # the fault stands BEFORE this file's INCLUDE: the first @dup is still main's, the diagnostic is here
+                        pass
+                    trace = ";".join("%s:%d" % (names[i], inc_line[i]) for i in range(j - 1, -1, -1))
+                    out.append((files, ("trace", names[j], fl, trace)))
+    return out
+
+
+def path_property_faults():
+    """n Path directives, the k-th declares a property typed by an object / array / undefined user type: the diagnostic of the
+    path-variable stage must lie inside THAT Path directive (also when a later Path stands in an included file)"""
+    out = []
+    head = "JSIGHT 0.3\nTYPE @obj\n  {\n    \"k\": 1\n  }\nTYPE @arr\n  [1]\n"
+    faults = ['"%s": @obj', '"%s": 1 // {type: "@obj"}', '"%s": @arr', '"%s": @nope', '"%s": @obj | @arr']
+    for n in (2, 3):
+        for k in range(n):
+            for fi, f in enumerate(faults):
+                for inc in (False, True):
+                    text = head
+                    span = None
+                    files = []
+                    for i in range(n):
+                        prop = (f % ("p%d" % i)) if i == k else ('"p%d": 1' % i)
+                        blk = "URL /r%d/{p%d}\n  Path\n    {\n      %s\n    }\n  GET\n    200 any\n" % (i, i, prop)
+                        if inc and i == n - 1 and i != k:
+                            files.append(("last.jst", blk.encode()))
+                            text += "INCLUDE last.jst\n"
+                            continue
+                        if i == k:
+                            a0 = len(text) + blk.index("Path")
+                            span = (a0, len(text) + blk.index("}\n  GET"))
+                        text += blk
+                    out.append(([("main.jst", text.encode())] + files, ("span", "main.jst", span[0], span[1])))
+    return out
+
+
 def project_stage(res, tier, seed, rp):
     """whole rejected projects: the diagnostic's file exists, the index is inside it, the line agrees with the index; for the
     type-chain family (a semantic error deep inside the last type of a reference chain, intermediate types in short files) the
@@ -229,6 +298,8 @@ def project_stage(res, tier, seed, rp):
         projects += [(pj, None) for pj in M1.slot_matrix()]
         from .. import scancheck as S
         projects += [(pj, None) for pj in M1.hostile_projects(rng, S.fixture_files(), True)]
+        projects += include_chains(rng, tier == "quick")
+        projects += path_property_faults()
     outs = C.run_sharded("harness", "fn", [P.run_line("out=sha", pj) for pj, _ in projects])
     res.count(len(projects))
     bad = []
@@ -238,6 +309,12 @@ def project_stage(res, tier, seed, rp):
         dist[st] = dist.get(st, 0) + 1
         if st == "panic":
             bad.append(("the diagnostic could not be produced: %s" % C.unhx(d.get("msg", "-")).decode("latin1")[:200], pj, o))
+            continue
+        if isinstance(fam, tuple) and fam[0] == "span" and st != "err":
+            bad.append(("a Path property typed by a structured or undefined user type is not rejected (%s)" % st, pj, o))
+            continue
+        if isinstance(fam, tuple) and fam[0] == "trace" and st != "err":
+            bad.append(("a duplicate TYPE in an included file is not rejected (%s)" % st, pj, o))
             continue
         if st != "err" or "file" not in d:
             continue
@@ -261,6 +338,18 @@ def project_stage(res, tier, seed, rp):
         want = spec_line(content, idx, spec_detect_nl(content))
         if line != want and not (idx == 0 and line == 0):
             bad.append(("line %d does not agree with index %d of %s (line %d)" % (line, idx, fname, want), pj, o))
+            continue
+        if isinstance(fam, tuple) and fam[0] == "trace":
+            _, wfile, wline, wtrace = fam
+            got = C.unhx(d.get("trace", "-")).decode("latin1") if d.get("trace", "-") != "-" else ""
+            if fname != wfile or line != wline or got != wtrace:
+                bad.append(("the fault is the second TYPE @dup in %s line %d, reached through the includes %r; the diagnostic says %s line %d with the trace %r"
+                            % (wfile, wline, wtrace, fname, line, got), pj, o))
+            continue
+        if isinstance(fam, tuple) and fam[0] == "span":
+            _, wfile, a0, a1 = fam
+            if fname != wfile or not (a0 <= idx <= a1):
+                bad.append(("the fault is in the Path directive at %s bytes %d..%d; the diagnostic points at %s index %d (line %d)" % (wfile, a0, a1, fname, idx, line), pj, o))
             continue
         if fam == "chain":
             a = content.find(b'"bad"')
